@@ -158,7 +158,8 @@ def run(ctx):
         ctx.floor("C02-c", "FrameDecoder unknown-frame iterations", len(unk), 1)
         for p in unk:
             adv = p.calls("h3::buf::BufList::advance", "::advance")
-            ok = p.end == "stop" and len(adv) == 1 and expr.mentions(adv[0][3][1], lambda n: n[0] == "call" and n[1].endswith("Cursor::position"))
+            ok = p.end == "stop" and len(adv) == 1 and (expr.mentions(adv[0][3][1], lambda n: n[0] == "call" and n[1].endswith("Cursor::position")) or
+                                                           ("cursor@" in pa.vfmt(adv[0][3][1]) and pa.vfmt(adv[0][3][1]).endswith(".pos_total")))
             ctx.check(ok, "C02-c", fd.key, "unknown frame skipped in full, decoding continues",
                       "the UnknownFrame arm ends with %s / advances by %s; expected src.advance(cursor position) then `continue`"
                       % (p.end if p.end != "return" else p.ret_shape(), [pa.vfmt(e[3][1]) for e in adv]), "", None, p.describe())
